@@ -254,13 +254,13 @@ fn variant_tag(v: &Variant) -> &'static str {
         Variant::ActiveConstraint => "active-constraint",
         Variant::RemovedConstraintOnly => "removed-constraint-only",
         Variant::Maximize => "maximize",
-        Variant::NonBinary { kind, .. } => {
-            if *kind == KIND_INTEGER {
-                "integer-variable"
-            } else {
-                "continuous-variable"
-            }
-        }
+        Variant::NonBinary { kind, .. } => match *kind {
+            KIND_INTEGER => "integer-variable",
+            KIND_CONTINUOUS => "continuous-variable",
+            4 => "semi-integer-variable",
+            5 => "semi-continuous-variable",
+            _ => "unspecified-kind-variable",
+        },
     }
 }
 
@@ -337,7 +337,7 @@ pub fn run(ctx: &Ctx) -> Finish {
         }
         let nz: BTreeSet<u64> = nonzero_term_sets(f).into_iter().flatten().collect();
         for id in nz {
-            for kind in [KIND_INTEGER, KIND_CONTINUOUS] {
+            for kind in [KIND_INTEGER, KIND_CONTINUOUS, 4, 5, 0] {
                 check_case(l, &Case { objective: f.clone(), binary_ids: vec![1, 2, 7], variant: Variant::NonBinary { id, kind } });
             }
         }
